@@ -33,8 +33,17 @@ Proof. exact (@read_always_enabled V). Qed.
 
 Theorem C12_secret_hands_out : forall (s : store V) n, known s n = true -> In n (hs (fst (secret s n))).
 Proof. exact (@secret_gives_handle V). Qed.
-Theorem C12_lookup_hands_out : forall (s : store V) n v b t, In n (hs (fst (lookup_install s n v b t))).
+(* the locked part of a lookup flight (Store.lookup_finish, the code after the F8 repair) hands out a
+   handle in EVERY state - whether it installs the answer or finds the name valued by now *)
+Theorem C12_lookup_hands_out : forall (s : store V) n v b t, In n (hs (fst (lookup_finish s n v b t))).
 Proof. exact (@lookup_gives_handle V). Qed.
+
+(* VLookupEnd is a separate event from VLookupBegin, i.e. a late flight; when the name has a value by
+   then nothing is installed: install list, map (what every handle serves) and read log unchanged *)
+Theorem C12_lookup_end_on_known : forall (x : rstate V) n v b t e, entry (rst x) n = Some e ->
+  rinst (rstep x (VLookupEnd n v b t)) = rinst x /\ m (rst (rstep x (VLookupEnd n v b t))) = m (rst x) /\
+  rlog (rstep x (VLookupEnd n v b t)) = rlog x.
+Proof. exact (@lookup_end_on_known V). Qed.
 
 (* a read is ONE step: it appends one log entry whose value is the latest install for that name
    and touches no install *)
@@ -67,6 +76,7 @@ Print Assumptions C12_handles_never_dangle.
 Print Assumptions C12_read_enabled.
 Print Assumptions C12_secret_hands_out.
 Print Assumptions C12_lookup_hands_out.
+Print Assumptions C12_lookup_end_on_known.
 Print Assumptions C12_read_one_step.
 Print Assumptions C12_reads.
 Print Assumptions C12_apply_is_store_apply.
@@ -98,3 +108,13 @@ Example x_bad_foreign : reads_ok N.eqb x_inst [RD 0 xa 20 0] = false. Proof. ref
 Example x_bad_torn : reads_ok N.eqb x_inst [RD 0 xa 999 0] = false. Proof. reflexivity. Qed.
 Example x_bad_missed : reads_ok N.eqb x_inst [RD 0 xa 10 3] = false. Proof. reflexivity. Qed.
 Example x_ok_not_missed : reads_ok N.eqb x_inst [RD 0 xa 10 2; RD 0 xa 11 3] = true. Proof. reflexivity. Qed.
+(* a late flight (F8): a second lookup of c whose answer (version 8, bytes 31) arrives after the first
+   one installed (7, 30): nothing is installed, readers keep getting 30, the monitor accepts *)
+Definition x_evs_late : list (rvt N) :=
+  [VLookupBegin xc; VLookupBegin xc; VLookupEnd xc 7 30 2%Z; VRead 1 xc 3%Z; VLookupEnd xc 8 31 4%Z; VRead 1 xc 5%Z; VRead 2 xc 5%Z].
+Example x_late_flight :
+  rinst (rrun (rinit x_s0) x_evs_late) = [(xa, 10); (xb, 20); (xc, 30)]
+  /\ map (fun y => (N.of_nat (rd_reader y), rd_val y, N.of_nat (rd_pos y))) (rlog (rrun (rinit x_s0) x_evs_late))
+     = [(1, 30, 3); (1, 30, 3); (2, 30, 3)]
+  /\ reads_ok N.eqb (rinst (rrun (rinit x_s0) x_evs_late)) (rlog (rrun (rinit x_s0) x_evs_late)) = true.
+Proof. vm_compute. repeat split. Qed.
